@@ -48,3 +48,9 @@ impl<T> DerefMut for Toggle<T> {
         &mut self.inner
     }
 }
+
+/// Verification hook: byte buffer the `verif_fingerprint` accessors dump private state into.
+#[cfg(all(feature = "verif-hooks", feature = "std"))]
+pub type VerifDump = std::vec::Vec<u8>;
+#[cfg(all(feature = "verif-hooks", not(feature = "std")))]
+pub type VerifDump = alloc::vec::Vec<u8>;
